@@ -2,7 +2,7 @@
 Decided clause (anchor mechanism 2, shared option structs and shared traversal engine): SIBLING + CHAIN + SETTER on the parts the two backends are
 supposed to share verbatim.  Not decided: outcome and tree equality of the two backends on a real kernel."""
 import re
-import engine, setters, linkrules, locks
+import engine, setters, linkrules, locks, errguard
 from callgraph import CallGraph
 from atomic import PairCheck, Mutation
 from mir import callee_of, op_local
@@ -94,6 +94,8 @@ def run(rep, F, ctx):
                                 '%(fn)s changes permissions only for a non-link entry (or when following)',
                                 '%(fn)s changes permissions at %(loc)s without the guard !is_symlink() || follow', P)
 
+    errguard.err_guard(rep, F, cg, engine.load_table('err_guards.json'), lambda fn: 'stdfs' in fn)
+    errguard.io_table(rep, F, cg, engine.load_table('stdfs_io.json'))
     # evidence only: which PathError constructors each backend may call per trait method (Engler-style contradiction cross-check)
     diffs = []
     for m in [x['name'] for x in F.traits[TR]['methods']]:
